@@ -3,7 +3,9 @@
 
    [run current evs] is the state of the monitor + client bookkeeping (model/TxMonitor.v, the
    code as it is now) after the event history [evs]; histories are arbitrary lists of events:
-   any interleaving of sends, new waiters, polls with any answers (None = failed call), check
+   any interleaving of sends (the sentTxs entry, [Sent]) and the later registration of the client's
+   own waiter goroutine ([InternalWatch] -- two steps, as in Go), new waiters, polls with any
+   answers (None = failed call; [PollLost] = the hand-over to the checker was dropped), check
    snapshots, batch replies with any per-transaction answer (receipt, NotFound sentinel, JSON
    null over the wire, error), failed batches, element processing with any answer of the
    individual query, the client's own waiter goroutines, Close and the shutdown drain.
@@ -39,31 +41,86 @@ Theorem C09_waiter_tx_unique : forall evs w h n h' n', let s := run current evs 
 Proof. exact waiter_tx_unique. Qed.
 Print Assumptions C09_waiter_tx_unique.
 
-(* Truthful receipt: a waiter is handed a receipt (for hash h, with status st) only if it waits
-   for h and the chain node answered exactly that receipt for h, in a batch reply or in the
-   individual query, somewhere in the history. *)
-Theorem C09_truthful_receipt : forall evs w h st,
-  In (w, OReceipt h st) (delivered (run current evs)) ->
-  (exists n, In (w, h, n) (watchers (run current evs))) /\ from_node evs h (RReceipt st).
-Proof. exact truthful_receipt. Qed.
-Print Assumptions C09_truthful_receipt.
+(* Truthfulness, strong form.  If waiter w holds a receipt or "cancelled" after the history evs, then
+   evs = pre ++ Proc fb :: post  where, in the state after [pre],
+   - w holds nothing yet and is registered for transaction (n, h): the outcome is delivered by this
+     very step (so everything below PRECEDES the delivery);
+   - the checker is inside a check with confirmed nonce c and the element being processed is
+     (n, h, r) -- the answer is for w's OWN hash h -- and n < c: the confirmed nonce of this same
+     check has passed the transaction's nonce;
+   - [poll_src pre c]: c was reported by the node to a poll in [pre] that found the checker idle
+     and handed the check over (an effective poll, not an ignored event);
+   - [batch_src pre c n h r]: r is what a batch reply in [pre] answered for h, that reply having
+     arrived while this check was waiting for one and had (n, h) in its snapshot (the batch asked
+     for h);
+   - [resolves h r fb = Some o]: o is dictated by r and by fb, the answer of the individual query
+     for h made in this step (readings below). *)
+Theorem C09_truthful_strong : forall evs w o, In (w, o) (delivered (run current evs)) -> o <> OClosed ->
+  exists pre fb post c snap n h r q, evs = pre ++ Proc fb :: post /\
+    let s := run current pre in
+    (forall o', ~ In (w, o') (delivered s)) /\
+    chk s = InFlight c snap ((n, h, r) :: q) /\ In (n, h, w) (wait s) /\ In (w, h, n) (watchers s) /\
+    n < c /\ resolves h r fb = Some o /\
+    poll_src pre c /\ batch_src pre c n h r.
+Proof. exact truthful_strong. Qed.
+Print Assumptions C09_truthful_strong.
+(* a receipt: it is for h itself, and the node answered exactly this receipt for h -- in the batch,
+   or individually after a null / failed batch element *)
+Theorem C09_resolves_receipt : forall h r fb h' st, resolves h r fb = Some (OReceipt h' st) ->
+  h' = h /\ (r = RReceipt st \/ ((r = RNullOverWire \/ r = RRpcErr) /\ fb = Some (RReceipt st))).
+Proof. exact resolves_receipt. Qed.
+Print Assumptions C09_resolves_receipt.
+(* "cancelled": the node said "no receipt" for h -- the sentinel in the batch, or NotFound to the
+   individual query after a null / failed element; never after a receipt, never on errors alone:
+   no false cancellation of a mined transaction *)
+Theorem C09_resolves_cancel : forall h r fb, resolves h r fb = Some OCancelled ->
+  r = RNotFound \/ ((r = RNullOverWire \/ r = RRpcErr) /\ fb = Some RNotFound).
+Proof. exact resolves_cancel. Qed.
+Print Assumptions C09_resolves_cancel.
+(* state form of the same facts (the history variables [answers], [confs] only record consumed
+   answers and effective polls) *)
+Theorem C09_truthful_receipt_state : forall evs w h st, In (w, OReceipt h st) (delivered (run current evs)) ->
+  exists n c, In (w, h, n) (watchers (run current evs)) /\ In (c, h, RReceipt st) (answers (run current evs)).
+Proof. exact truthful_receipt_state. Qed.
+Print Assumptions C09_truthful_receipt_state.
+Theorem C09_truthful_cancel_state : forall evs w, In (w, OCancelled) (delivered (run current evs)) ->
+  exists h n c r, In (w, h, n) (watchers (run current evs)) /\ In (c, h, r) (answers (run current evs)) /\
+                  no_receipt r = true /\ n < c /\ In c (confs (run current evs)).
+Proof. exact truthful_cancel_state. Qed.
+Print Assumptions C09_truthful_cancel_state.
 
-(* Truthful cancellation: "cancelled" only if the node reported a confirmed nonce c above the
-   transaction's nonce AND the node answered "no receipt" (sentinel or null) for its hash. In
-   particular never when every answer for h was a receipt or an error. *)
-Theorem C09_truthful_cancel : forall evs w,
-  In (w, OCancelled) (delivered (run current evs)) ->
-  exists h n c r b nt, In (w, h, n) (watchers (run current evs)) /\
-    In (Poll (Some b) (Some c) nt) evs /\ n < c /\
-    from_node evs h r /\ no_receipt r = true.
-Proof. exact truthful_cancel. Qed.
-Print Assumptions C09_truthful_cancel.
-
-(* "monitor closed" only after shutdown began. *)
-Theorem C09_truthful_closed : forall evs w,
-  In (w, OClosed) (delivered (run current evs)) -> In Close evs.
-Proof. exact truthful_closed. Qed.
+(* "monitor closed": delivered by a step that comes after Close -- the shutdown drain to a waiter
+   registered at that moment, or the waiter's own watchTx once the drain has run. *)
+Theorem C09_truthful_closed : forall evs w, In (w, OClosed) (delivered (run current evs)) ->
+  exists pre e post, evs = pre ++ e :: post /\ In Close pre /\
+    let s := run current pre in
+    (forall o', ~ In (w, o') (delivered s)) /\
+    ((e = Drain /\ exists n h, In (n, h, w) (wait s)) \/
+     (drained s = true /\ w = next s /\ exists h n, e = Watch h \/ e = WatchRaw h n \/ e = InternalWatch h n)).
+Proof. exact truthful_closed_strong. Qed.
 Print Assumptions C09_truthful_closed.
+
+(* The fourth answer.  WaitForReceipt(h) returns the error "tx not found" when h has no sentTxs
+   entry; such a caller is never registered and gets no channel outcome (it is not a "party
+   waiting on a submitted transaction" in the sense of the property).  Reading adopted: the
+   property demands receipt / cancelled / closed for every REGISTERED waiter (theorems above) and
+   tolerates a refusal only where nothing is pending; what the code guarantees is exactly this:
+   a call is refused only for a hash the client never sent, or for a transaction whose receipt
+   the client's own waiter has already consumed (mined, entry deleted) -- a late caller for a
+   mined transaction is told "tx not found", NOT its receipt -- and never for a transaction that
+   is still listed or was cancelled (the flagged entry is kept, C09_late_watch_registers). *)
+Theorem C09_refused_only_unsent_or_mined : forall evs w, In w (refused (run current evs)) ->
+  exists pre h post, evs = pre ++ Watch h :: post /\ w = next (run current pre) /\
+    (forall h' n', ~ In (w, h', n') (watchers (run current evs))) /\
+    (~ In h (sent (run current pre)) \/
+     exists w0 n st, In (w0, h, n) (watchers (run current pre)) /\ In (w0, OReceipt h st) (delivered (run current pre))).
+Proof. exact refused_only_unsent_or_mined. Qed.
+Print Assumptions C09_refused_only_unsent_or_mined.
+Theorem C09_late_watch_registers : forall s h n, panicked s = false -> drained s = false ->
+  lookup h (pending s) = Some n ->
+  In (n, h, next s) (wait (step current s (Watch h))).
+Proof. exact late_watch_registers. Qed.
+Print Assumptions C09_late_watch_registers.
 
 (* Resolution, check side (in every reachable state s):
    (1) the snapshot of a check with confirmed nonce c contains every registered (nonce, hash)
@@ -133,7 +190,7 @@ Proof. exact stalled_without_new_block. Qed.
 Print Assumptions C09_stalled_without_new_block.
 (* ... concretely ("eventually, without chain progress" is refuted; the next block resolves): *)
 Theorem C09_resolution_without_new_block_refuted : forall k,
-  let pre := [Poll (Some 5) (Some 1) false; CheckBegin; Sent 1 0; WatchRaw 1 0] in
+  let pre := [Poll (Some 5) (Some 1) false; CheckBegin; Sent 1 0; InternalWatch 1 0; WatchRaw 1 0] in
   let s := run current (pre ++ repeat (Poll (Some 5) (Some 1) false) k) in
   wait s = [(0, 1, 0); (0, 1, 1)] /\ delivered s = [] /\ chk s = Idle /\
   delivered (run current ((pre ++ repeat (Poll (Some 5) (Some 1) false) k) ++
@@ -156,6 +213,25 @@ Theorem C09_new_block_during_check_dropped : forall s b c nt c0 snap q, panicked
   chk s' = InFlight c0 snap q /\ last_block s' = b.
 Proof. exact new_block_during_check_dropped. Qed.
 Print Assumptions C09_new_block_during_check_dropped.
+(* ... and so is one polled when no check is in flight but checkLoop is not yet back in its
+   select (event [PollLost]: the non-blocking send takes the default branch; C09_new_block_starts_check
+   is about [Poll], the iteration whose hand-over succeeded): nothing is checked, lastBlock advances ... *)
+Theorem C09_handoff_lost_consumes_block : forall s b c nt, panicked s = false -> wl_exited s = false ->
+  last_block s < b ->
+  let s' := step current s (PollLost b c nt) in
+  chk s' = chk s /\ wait s' = wait s /\ delivered s' = delivered s /\ last_block s' = b.
+Proof. exact handoff_lost_consumes_block. Qed.
+Print Assumptions C09_handoff_lost_consumes_block.
+(* ... so the waiter of a mined transaction then waits for the block after (concrete history): *)
+Theorem C09_handoff_lost_demo : forall k,
+  let pre := [Sent 1 0; InternalWatch 1 0; WatchRaw 1 0; PollLost 6 1 false] in
+  let s := run current (pre ++ repeat (Poll (Some 6) (Some 1) false) k) in
+  wait s = [(0, 1, 0); (0, 1, 1)] /\ delivered s = [] /\ chk s = Idle /\ last_block s = 6 /\
+  delivered (run current ((pre ++ repeat (Poll (Some 6) (Some 1) false) k) ++
+                          [Poll (Some 7) (Some 1) false; CheckBegin; BatchReply [(1, RReceipt 1)]; Proc None]))
+  = [(0, OReceipt 1 1); (1, OReceipt 1 1)].
+Proof. exact handoff_lost_demo. Qed.
+Print Assumptions C09_handoff_lost_demo.
 
 (* Resolution, shutdown side: once Close happened, the drain completes ... *)
 Theorem C09_drain_completes : forall evs, closed (run current evs) = true ->
@@ -193,21 +269,26 @@ Theorem C09_pending_resolved : forall s w h o, panicked s = false ->
   ~ In h (pending_hashes (step current s (InternalRun w))).
 Proof. exact internal_run_clears. Qed.
 Print Assumptions C09_pending_resolved.
+(* ... and stays unlisted unless the client sends that very hash again. *)
+Theorem C09_pending_resolved_stays : forall evs' s h, ~ In h (pending_hashes s) ->
+  (forall n, ~ In (Sent h n) evs') -> ~ In h (pending_hashes (run_from current s evs')).
+Proof. exact pending_resolved_stays. Qed.
+Print Assumptions C09_pending_resolved_stays.
 
 (* The code before the three repairs violates the property (regression lemmas). *)
 Theorem C09_no_panic_refuted :
-  panicked (run v0_drain [Sent 1 0; Poll (Some 1) (Some 1) true; CheckBegin; Close; Drain;
+  panicked (run v0_drain [Sent 1 0; InternalWatch 1 0; Poll (Some 1) (Some 1) true; CheckBegin; Close; Drain;
                           BatchReply [(1, RReceipt 1)]; Proc None]) = true.
 Proof. exact no_panic_refuted. Qed.
 Print Assumptions C09_no_panic_refuted.
 Theorem C09_resolved_refuted :
-  let s := run v0_fallback [Sent 1 0; Poll (Some 1) (Some 1) true; CheckBegin;
+  let s := run v0_fallback [Sent 1 0; InternalWatch 1 0; Poll (Some 1) (Some 1) true; CheckBegin;
                             BatchReply [(1, RNullOverWire)]; Proc (Some RNotFound)] in
   chk s = Idle /\ wait s = [(0, 1, 0)] /\ delivered s = [].
 Proof. exact resolved_refuted. Qed.
 Print Assumptions C09_resolved_refuted.
 Theorem C09_pending_refuted :
-  let s := run v0_pending [Sent 1 0; Poll (Some 1) (Some 1) true; CheckBegin;
+  let s := run v0_pending [Sent 1 0; InternalWatch 1 0; Poll (Some 1) (Some 1) true; CheckBegin;
                            BatchReply [(1, RNotFound)]; Proc None; InternalRun 0] in
   delivered s = [(0, OCancelled)] /\ internal s = [] /\ pending_hashes s = [1].
 Proof. exact pending_refuted. Qed.
